@@ -2,11 +2,12 @@
 
 Unlike harness/translate.py (static data only) this module translates FUNCTION BODIES.  It is
 deliberately tiny: it covers exactly the first-order, list-and-integer subset in which
-`superrec2/utils/subsequences.py` (C18) and `superrec2/utils/range_min_query.py` (C17) are written,
+`superrec2/utils/subsequences.py` (C18), `superrec2/utils/range_min_query.py` (C17) and
+`superrec2/utils/disjoint_set.py` (C20) are written,
 and raises `Unsupported(node)` on anything else (never guesses).  The output is re-generated on every
 run of the check and compared with the hand-written model BY PROOF (lean/SRVerif/Proofs/SubseqPyEquiv.lean,
-lean/SRVerif/Proofs/RmqPyEquiv.lean), so that the property theorems hold of "what the code says now"
-(lean/SRVerif/Properties/C18Code.lean, C17Code.lean).
+lean/SRVerif/Proofs/RmqPyEquiv.lean, lean/SRVerif/Proofs/DsuPyEquiv.lean), so that the property theorems
+hold of "what the code says now" (lean/SRVerif/Properties/C18Code.lean, C17Code.lean, C20Code.lean).
 
 Subset
 ------
@@ -69,6 +70,50 @@ binding or storing an existing list (`x = y`, `x = t[i]`, `t.append(x)`, `[row] 
 is rejected, as are in-place changes of parameters, of loop targets and (outside `__init__`) of
 attributes.  Elements themselves are assumed immutable.
 
+Objects that change (C20)
+-------------------------
+* A method that assigns an attribute (`self.n -= 1`), an item of a list attribute (`self.parent[x] = r`,
+  `self.rank[a] += 1`), appends to one, or calls such a method on `self` (least fixed point over the class)
+  CHANGES `self`: it is translated in state-passing style, `def C.m (self : C) .. : Except Err (C × ρ)`,
+  every change is `let self : C := { self with attr := .. }`, `return v` is `.ok (self, v)`.  A call
+  `x.m(args)` of such a method is hoisted as `match C.m x args with | .error e_ => .. | .ok (x, t_) => ..`:
+  it REBINDS `x` (`self`, or a local object; never a parameter).  After the call every Lean text that
+  mentions `x` reads the new state, so the statement that contains the call may mention `x` elsewhere only
+  where that is what Python does too: `x.attr[i]` (hoisted at its own time), another translated method
+  call, the bare reference `x` handed on, the target of the assignment (`check_stale`).  List attributes
+  are never re-bound outside `__init__` (changed in place only), so a reference to one cannot go stale.
+  The type of an attribute is the join over the class (`groups` is stored as a `Nat` by `__init__` and
+  becomes an `Int` because `unite` subtracts from it): the class is translated again until the types settle.
+* A recursive method / nested function `f` becomes `f.rec_ : Nat → .. ` recursing on an explicit FUEL
+  (`.error .Diverged` at 0) and `f args := f.rec_ <fuel> args`, where `<fuel>` is the expression DECLARED
+  for `f` in the ModuleSpec (`len(self.parent) + 1` for `find`: not a syntactic measure — that it suffices
+  under the invariant of the structure is proved in the equivalence; the marker `Diverged` is never a
+  claim about Python).
+* A function defined at the top of a method's body (`_binary`) must be closed (no variable of the
+  enclosing function) and is translated as the separate function `C.m._f`; calls may use keywords.
+* `if x is None` / `if x is not None` on an Optional local become `match x with | some x => .. | none => ..`
+  (the `some` arm is typed with `x` at the inner type; a later test of `x` in either arm is decided
+  statically); `if a or b` where `b` may raise, or needs `a` to be false to be typed, is `if a .. elif b ..`.
+* `deepcopy(x)` (with `from copy import deepcopy`, never rebound) is `x`: value semantics.  This is exact as
+  long as no object is changed while it can be reached through two references; enforced syntactically:
+  mutable values are bound / stored only when fresh (display, comprehension, `list(..)`, slice, `deepcopy`,
+  the result of a translated function that never returns a parameter or an attribute), parameters are
+  never changed in place, and no variable is changed in place after (in source order, or in the same
+  loop as) a statement that hands the bare reference on (`check_moves`).  What is RETURNED may share
+  objects with the arguments, `self` included (`return [partition]`): which objects are identical is not
+  part of the translation, only their values when the function returns.
+* `x[k:]` (`List.drop`), `return a + b` on two local lists, `list(range(n))`, `x[i].append(v)`,
+  `[e for x in seq if c]`, `return [x for x in local if c]` (the rows move into the result).  A
+  comprehension / generator whose element expression may raise or changes an object
+  (`self.find(i) for i in ..`) is the loop it abbreviates: it is lifted in front of the statement as
+  `c1_ = []; for i in ..: c1_.append(..)` when it is the first thing the statement evaluates.
+* `list(set(xs))` on non-negative ints is `Py.listOfSet ord_ xs`: Python does not specify the iteration
+  order of a set, so the function takes the explicit parameter `ord_ : List Nat → List Nat` (the distinct
+  elements in insertion order ↦ the order of iteration); theorems assume `Py.SetOrder ord_` only.
+* An unannotated parameter (`count`) has the type DECLARED for it in the ModuleSpec.  Methods listed
+  as `ignored_methods` (`__repr__`) are not translated; they are checked to read attributes and call
+  translated methods only.
+
 Normal form (what the hand-written equivalence proofs are stated against)
 -----------------------------------------------------------------------
 * `def f (params) : Except Err rho` -- `.error e` = Python raises `e`;
@@ -92,6 +137,7 @@ Local variable NAMES appear only in binders, so renaming a local does not change
 proof script; the ORDER of first appearance fixes the state tuple.
 """
 import ast
+import copy
 import hashlib
 import json
 import re
@@ -199,9 +245,11 @@ LEAN_KEYWORDS = set(
     "set_option show structure syntax then theorem universe variable where with macro local "
     "partial unsafe opaque nomatch nofun this Type Prop Sort".split()
 )
-RESERVED = {"it_", "fuel_", "e_", "v_", "lt_"}
+RESERVED = {"it_", "fuel_", "e_", "v_", "lt_", "ord_"}
 # builtins whose Python meaning the translator relies on: a module or a function that rebinds one is rejected
 BUILTINS = {"min", "max", "len", "bool", "list", "range", "enumerate", "int", "None", "True", "False"}
+# names of the methods (of the classes being translated) that change their receiver: set by `translate_source`
+_MUT = {"methods": set()}
 INFER = "?infer"  # member of the `defined` set while types are being inferred (no binding checks)
 
 
@@ -209,6 +257,12 @@ def nn(name):
     """Marker in a `defined` set: `name` is bound, here, at the type inside its Optional
     (after `assert name is not None`)."""
     return ("nn", name)
+
+
+def isnone(name):
+    """Marker in a `defined` set: `name` (of Optional type) is known to be None here (the `none` arm of
+    the `match` generated for `if name is None`)."""
+    return ("none", name)
 
 
 def lean_name(name, node=None):
@@ -287,10 +341,22 @@ def setitem(st):
     return key, idx, st.value
 
 
+def aug_setitem(st):
+    """(key of the container, index expression, operator, value) when `st` is `x[i] op= v`
+    (`x` a plain name or `self.attr`)."""
+    if not (isinstance(st, ast.AugAssign) and isinstance(st.target, ast.Subscript)):
+        return None
+    t = st.target
+    key = target_key(t.value)
+    if key is None or isinstance(t.slice, ast.Slice):
+        raise Unsupported(st, "augmented item assignment is supported on `x[i] op= v` only")
+    return key, t.slice, st.op, st.value
+
+
 def stmt_target(st):
     """(name, value-expression) of an assignment statement, with `x op= e` normalised to
     `x = x op e`.  None for the other statements (and for `a, b = ..` / `x[i] = ..`)."""
-    if tuple_assign(st) or setitem(st):
+    if tuple_assign(st) or setitem(st) or aug_setitem(st):
         return None
     if isinstance(st, ast.Assign):
         key = target_key(st.targets[0]) if len(st.targets) == 1 else None
@@ -303,10 +369,15 @@ def stmt_target(st):
             raise Unsupported(st, "only assignments to one plain name are supported")
         return key, st.value
     if isinstance(st, ast.AugAssign):
-        if not isinstance(st.target, ast.Name):
+        key = target_key(st.target)
+        if key is None:
             raise Unsupported(st, "only assignments to one plain name are supported")
-        load = ast.copy_location(ast.Name(id=st.target.id, ctx=ast.Load()), st.target)
-        return st.target.id, ast.copy_location(ast.BinOp(left=load, op=st.op, right=st.value), st)
+        if isinstance(st.target, ast.Name):
+            load = ast.copy_location(ast.Name(id=st.target.id, ctx=ast.Load()), st.target)
+        else:  # self.attr op= e
+            load = ast.copy_location(ast.Attribute(value=st.target.value, attr=st.target.attr, ctx=ast.Load()),
+                                     st.target)
+        return key, ast.copy_location(ast.BinOp(left=load, op=st.op, right=st.value), st)
     return None
 
 
@@ -317,6 +388,26 @@ def append_call(st):
             and target_key(st.value.func.value) is not None and len(st.value.args) == 1
             and not st.value.keywords):
         return target_key(st.value.func.value), st.value.args[0]
+    return None
+
+
+def append_item(st):
+    """(list key, index expression, argument) when `st` is `name[i].append(arg)`."""
+    if (isinstance(st, ast.Expr) and isinstance(st.value, ast.Call)
+            and isinstance(st.value.func, ast.Attribute) and st.value.func.attr == "append"
+            and isinstance(st.value.func.value, ast.Subscript)
+            and not isinstance(st.value.func.value.slice, ast.Slice)
+            and target_key(st.value.func.value.value) is not None and len(st.value.args) == 1
+            and not st.value.keywords):
+        return target_key(st.value.func.value.value), st.value.func.value.slice, st.value.args[0]
+    return None
+
+
+def mut_receiver(node):
+    """The receiver `x` of a call `x.m(..)` of a method that changes its receiver."""
+    if (isinstance(node, ast.Call) and isinstance(node.func, ast.Attribute)
+            and node.func.attr in _MUT["methods"] and isinstance(node.func.value, ast.Name)):
+        return node.func.value.id
     return None
 
 
@@ -348,6 +439,14 @@ def assigned(stmts):
         ap = append_call(st)
         if ap:
             out.add(ap[0])
+        if aug_setitem(st):
+            out.add(aug_setitem(st)[0])
+        if append_item(st):
+            out.add(append_item(st)[0])
+        if _MUT["methods"] and not isinstance(st, ast.FunctionDef):
+            for sub in ast.walk(st):
+                if mut_receiver(sub):
+                    out.add(mut_receiver(sub))
         if isinstance(st, ast.If):
             out |= assigned(st.body) | assigned(st.orelse)
         if isinstance(st, ast.For):
@@ -386,8 +485,9 @@ def contains(stmts, kinds):
 class Ctx:
     """Control context: how `return v`, an exception, `break`, `continue` are written here."""
 
-    def __init__(self, ret, err, brk=None, cont=None):
+    def __init__(self, ret, err, brk=None, cont=None, raw=None):
         self.ret, self.err, self.brk, self.cont = ret, err, brk, cont
+        self.raw = raw or ret  # `return` of a value that already carries the new `self` (from an inner loop)
 
 
 # --------------------------------------------------------------------------
@@ -407,17 +507,39 @@ class ModuleCtx:
         self.has_lt = has_lt  # `min` on elements is available (through `lt_`)
         self.sigs = {}  # python name -> signature of the functions translated so far
         self.classes = {}  # class name -> {attribute: type}
+        self.msigs = {}  # "Class.method" -> signature of the methods translated so far
+        self.mutators = {}  # class name -> names of the methods that change `self`
+        self.param_types = {}  # qualified python name -> {parameter: annotation text} (unannotated parameters)
+        self.fuel = {}  # qualified python name -> python expression (fuel of a recursive function)
+        self.attr_seed = {}  # class name -> {attribute: type}: widenings found in an earlier pass
+        self.dirty = False  # an attribute was widened in this pass: translate again
+        self.deepcopy = False  # `from copy import deepcopy` at module level
+        self.rebound = set()  # names of builtins outside BUILTINS (`set`, `deepcopy`) that the module rebinds
 
 
 class FunctionTranslator:
     MAX_LINES = 1500
 
-    def __init__(self, fn, elem_names=("Element",), mod=None, cls=None):
+    def __init__(self, fn, elem_names=("Element",), mod=None, cls=None, parent=None):
         self.fn = fn
         self.mod = mod or ModuleCtx(elem_names)
         self.cls = cls
         self.kind = "function" if cls is None else ("init" if fn.name == "__init__" else "method")
         self.name = (cls + "." if cls else "") + lean_name(fn.name, fn)
+        self.qual = (cls + "." if cls else "") + fn.name
+        if parent is not None:  # a function defined inside `parent`'s body
+            self.name = parent.name + "." + lean_name(fn.name, fn)
+            self.qual = parent.qual + "." + fn.name
+        self.parent = parent
+        # a method that changes `self` returns the new object with its result (state-passing style)
+        self.mut = self.kind == "method" and fn.name in self.mod.mutators.get(cls, ())
+        self.recursive = any(self.is_self_call(sub) for sub in ast.walk(fn))
+        self.uses_ord = False  # needs the parameter `ord_` (iteration order of a set)
+        self.ret_alias = False  # the result may BE a parameter / an attribute (a second reference to it)
+        self.local_fns = {}  # functions defined inside this one: python name -> signature
+        self.in_return = False
+        self.loop_depth = 0
+        self.cur_stmt = None
         self.elem_names = self.mod.elem_names
         self.aux = []  # loop definitions (text), innermost first
         self.n_loops = 0
@@ -440,17 +562,42 @@ class FunctionTranslator:
                 attrs = self.mod.classes[cls]
                 self.params.append("self")
                 self.types["self"] = tstruct(cls, any(uses_elem(t) for t in attrs.values()))
+        declared = self.mod.param_types.get(self.qual, {})
         for p in args:
             if p.arg == "self":
                 raise Unsupported(p, "parameter named `self`")
             lean_name(p.arg, p)
             self.params.append(p.arg)
-            self.types[p.arg] = self.annotation(p.annotation, p)
+            ann = p.annotation
+            if ann is None and p.arg in declared:
+                # the type of an unannotated parameter is DECLARED by the ModuleSpec (a recorded precondition)
+                ann = ast.parse(declared[p.arg], mode="eval").body
+            self.types[p.arg] = self.annotation(ann, p)
         self.param_types = dict(self.types)
         self.vars = list(self.params)
-        self.collect_vars(fn.body)
+        for sub in ast.walk(fn):
+            # `c1_`, `c2_`, ..: the lists built by lifted comprehensions
+            ident = sub.id if isinstance(sub, ast.Name) else sub.arg if isinstance(sub, ast.arg) else ""
+            if re.fullmatch(r"c\d+_", ident):
+                raise Unsupported(sub, f"local name `{ident}` is reserved by the translator")
+        self.fn_body = self.lift_comprehensions(list(fn.body))
+        self.nested = [st for st in self.fn_body if isinstance(st, ast.FunctionDef)]
+        self.collect_vars(self.fn_body)
+        if self.kind == "init":
+            for at, ty in self.mod.attr_seed.get(cls, {}).items():
+                if "self." + at in self.types:
+                    self.types["self." + at] = ty
         self.ret_type = BOT
+        self.translate_nested()
         self.infer()
+        for sub in ast.walk(ast.Module(body=self.fn_body, type_ignores=[])):
+            if isinstance(sub, ast.Return) and sub.value is not None:
+                v = sub.value
+                if isinstance(v, ast.Name) and v.id in self.params and has_list(self.types[v.id]):
+                    self.ret_alias = True  # the result IS a parameter: callers must not bind it
+                if isinstance(v, ast.Attribute) and target_key(v) and self.kind == "method" \
+                        and has_list(self.attr_types().get(v.attr, BOT)):
+                    self.ret_alias = True  # the result IS an attribute
         if self.kind == "init":
             self.attrs = {v[5:]: self.types[v] for v in self.vars if v.startswith("self.")}
             for at, ty in self.attrs.items():
@@ -465,6 +612,13 @@ class FunctionTranslator:
     def annotation(self, ann, where):
         if ann is None:
             raise Unsupported(where, "parameter without type annotation")
+        if isinstance(ann, ast.Constant) and isinstance(ann.value, str):
+            try:  # a forward reference: `"DisjointSet"`
+                ann = ast.parse(ann.value, mode="eval").body
+            except SyntaxError:
+                raise Unsupported(where, "unsupported type annotation")
+        if isinstance(ann, ast.Name) and ann.id in self.mod.classes:
+            return tstruct(ann.id, any(uses_elem(t) for t in self.mod.classes[ann.id].values()))
         if isinstance(ann, ast.Name):
             if ann.id == "int":
                 return self.mod.int_ty
@@ -501,6 +655,8 @@ class FunctionTranslator:
 
     def add_var(self, name, node):
         if name.startswith("self."):
+            if self.mut:
+                return  # an attribute of `self`, not a local variable
             if self.kind != "init":
                 raise Unsupported(node, "assignment to an attribute outside `__init__`")
         elif name.startswith("self_") or name == "self":
@@ -511,18 +667,209 @@ class FunctionTranslator:
             self.vars.append(name)
             self.types.setdefault(name, BOT)
 
+    # ---- recursion, nested functions, lifted comprehensions
+
+    def is_self_call(self, node):
+        """`node` is a call of the function being translated (a recursive call)."""
+        if not isinstance(node, ast.Call):
+            return False
+        f = node.func
+        if self.kind == "method":
+            return (isinstance(f, ast.Attribute) and isinstance(f.value, ast.Name) and f.value.id == "self"
+                    and f.attr == self.fn.name)
+        return self.kind == "function" and isinstance(f, ast.Name) and f.id == self.fn.name
+
+    def needs_lift(self, node):
+        """A comprehension whose element expression calls a translated function / method or indexes a
+        list (it may raise or change an object): it is translated as the loop it abbreviates."""
+        if len(node.generators) != 1 or node.generators[0].ifs or node.generators[0].is_async:
+            return False
+        for sub in ast.walk(node.elt):
+            if isinstance(sub, ast.Subscript):
+                return True
+            if isinstance(sub, ast.Call) and not (isinstance(sub.func, ast.Name) and sub.func.id in BUILTINS):
+                return True
+        return False
+
+    def lift_in(self, e, st):
+        """-> (statements to run first, rewritten expression).  The comprehension must be the first
+        thing the statement evaluates, bare names and constants apart (a comprehension cannot rebind
+        them), so that running it earlier changes nothing."""
+        if isinstance(e, (ast.ListComp, ast.GeneratorExp)) and self.needs_lift(e):
+            name = f"c{len(self.lifted) + 1}_"
+            self.lifted.add(name)
+            gen = e.generators[0]
+
+            def at(n):
+                return ast.fix_missing_locations(ast.copy_location(n, e))
+
+            init = at(ast.Assign(targets=[ast.Name(id=name, ctx=ast.Store())],
+                                 value=ast.List(elts=[], ctx=ast.Load())))
+            push = ast.Expr(value=ast.Call(
+                func=ast.Attribute(value=ast.Name(id=name, ctx=ast.Load()), attr="append", ctx=ast.Load()),
+                args=[e.elt], keywords=[]))
+            loop = at(ast.For(target=gen.target, iter=gen.iter, body=[push], orelse=[]))
+            return [init, loop], at(ast.Name(id=name, ctx=ast.Load()))
+        if isinstance(e, ast.Call) and isinstance(e.func, ast.Name) \
+                and not any(isinstance(a, ast.Starred) for a in e.args):
+            parts = list(e.args) + [k.value for k in e.keywords]
+            for i, a in enumerate(parts):
+                pre, new = self.lift_in(a, st)
+                if pre:
+                    call = copy.copy(e)
+                    if i < len(e.args):
+                        call.args = e.args[:i] + [new] + e.args[i + 1:]
+                    else:
+                        j = i - len(e.args)
+                        kw = copy.copy(e.keywords[j])
+                        kw.value = new
+                        call.keywords = e.keywords[:j] + [kw] + e.keywords[j + 1:]
+                    return pre, call
+                if not isinstance(a, (ast.Name, ast.Constant)):
+                    break
+        return [], e
+
+    def lift_comprehensions(self, stmts):
+        if not hasattr(self, "lifted"):
+            self.lifted = set()
+        out = []
+        for st in stmts:
+            if isinstance(st, (ast.If, ast.For, ast.While)):
+                st = copy.copy(st)
+                st.body = self.lift_comprehensions(st.body)
+                st.orelse = self.lift_comprehensions(st.orelse)
+            elif isinstance(st, (ast.Return, ast.Assign, ast.AnnAssign)) and st.value is not None:
+                pre, new = self.lift_in(st.value, st)
+                if pre:
+                    st = copy.copy(st)
+                    st.value = new
+                    out += pre
+            out.append(st)
+        return out
+
+    def translate_nested(self):
+        """Functions defined at the top level of the body: translated as separate (closed) functions."""
+        for st in self.nested:
+            if self.parent is not None:
+                raise Unsupported(st, "function nested twice")
+            local = {a.arg for a in st.args.args} | assigned(st.body) | {st.name}
+            for sub in ast.walk(st):
+                if isinstance(sub, (ast.comprehension, ast.For)):
+                    local |= set(loop_targets(sub))
+            known = local | BUILTINS | set(self.mod.classes) | set(self.mod.sigs) | {"deepcopy", "set"}
+            for b in st.body:
+                for sub in ast.walk(b):
+                    if isinstance(sub, ast.Name) and sub.id not in known:
+                        raise Unsupported(sub, f"the nested function `{st.name}` uses `{sub.id}`, a variable "
+                                               "of the enclosing function")
+            ft = FunctionTranslator(st, mod=self.mod, cls=None, parent=self)
+            self.local_fns[st.name] = ft
+
+    def attr_types(self):
+        return self.mod.classes[self.cls]
+
+    def widen_attr(self, attr, ty, node):
+        """An attribute assigned by a method: its type is the join over the whole class (the class is
+        translated again when a method widens what `__init__` stored)."""
+        attrs = self.attr_types()
+        if attr not in attrs:
+            raise Unsupported(node, f"unknown attribute `self.{attr}`")
+        new = join(attrs[attr], ty, node)
+        if new != attrs[attr]:
+            attrs[attr] = new
+            self.mod.attr_seed.setdefault(self.cls, {})[attr] = new
+            self.mod.dirty = True
+
+    def is_attr_key(self, key):
+        return self.kind == "method" and key.startswith("self.")
+
+    def assigned_(self, stmts):
+        """`assigned`, with the attributes of `self` changed by a method counted as `self`."""
+        out = assigned(stmts)
+        if self.kind == "method" and any(k.startswith("self.") for k in out):
+            out = {k for k in out if not k.startswith("self.")} | {"self"}
+        return out
+
+    def place(self, key, node, defined):
+        """-> (Lean text, type) of the assignable place `key` (a local, or an attribute of `self`)."""
+        if self.is_attr_key(key):
+            attrs = self.attr_types()
+            if key[5:] not in attrs:
+                raise Unsupported(node, f"unknown attribute `{key}`")
+            self.var_ref("self", node, defined)
+            return f"self.{lean_name(key[5:], node)}", attrs[key[5:]]
+        return lean_name(key, node), self.types[key]
+
+    def store(self, key, text, node):
+        """The `let` that writes `text` into the place `key`."""
+        if self.is_attr_key(key):
+            return (f"let self : {show_ty(self.types['self'])} := "
+                    f"{{ self with {lean_name(key[5:], node)} := {text} }}")
+        return f"let {lean_name(key, node)} : {show_ty(self.types[key])} := {text}"
+
+    def rho(self):
+        """The result type of the Lean function (with the new `self` for a method that changes it)."""
+        if self.mut:
+            return f"({show_ty(self.types['self'])} × {paren_ty(self.ret_type)})"
+        return paren_ty(self.ret_type)
+
+    def ret_text(self, v):
+        return f"(self, {v})" if self.mut else v
+
     # ---- type inference (flow-insensitive join, to a fixed point)
 
     def infer(self):
         for _ in range(12):
             before = (dict(self.types), self.ret_type)
-            self.infer_block(self.fn.body, {INFER})
+            self.infer_block(self.fn_body, {INFER})
             if before == (self.types, self.ret_type):
                 return
         raise Unsupported(self.fn, "type inference did not converge")
 
     def set_type(self, name, ty, node):
+        if self.is_attr_key(name):
+            return self.widen_attr(name[5:], ty, node)
         self.types[name] = join(self.types.get(name, BOT), ty, node)
+
+    def none_test(self, test, defined):
+        """(x, negated) when `test` is `x is not None` (negated = False) / `x is None` (True) on a local
+        of Optional type that is not narrowed yet: the branch in which `x` is not None is translated
+        with `x` bound at the inner type."""
+        if (isinstance(test, ast.Compare) and len(test.ops) == 1 and isinstance(test.left, ast.Name)
+                and isinstance(test.ops[0], (ast.Is, ast.IsNot))
+                and isinstance(test.comparators[0], ast.Constant) and test.comparators[0].value is None):
+            x = test.left.id
+            if x in self.types and is_opt(self.types[x]) and nn(x) not in defined and x != "self":
+                return x, isinstance(test.ops[0], ast.Is)
+        return None, False
+
+    def static_none_test(self, test, defined):
+        """True / False when `test` is `x is None` / `x is not None` on a local whose being None or not
+        is already settled by an enclosing test (its value has not changed since); None otherwise."""
+        if (isinstance(test, ast.Compare) and len(test.ops) == 1 and isinstance(test.left, ast.Name)
+                and isinstance(test.ops[0], (ast.Is, ast.IsNot))
+                and isinstance(test.comparators[0], ast.Constant) and test.comparators[0].value is None):
+            x = test.left.id
+            if x in self.types and is_opt(self.types[x]) and INFER not in defined:
+                if nn(x) in defined:
+                    return isinstance(test.ops[0], ast.IsNot)
+                if isnone(x) in defined:
+                    return isinstance(test.ops[0], ast.Is)
+        return None
+
+    def split_test(self, st):
+        """`if a or b: X else: Y` -> `if a: X elif b: X else: Y` when `b` must not be evaluated (or
+        typed) before `a` is known to be false: `b` has a raising sub-expression, or `a` is
+        `x is None` and `b` uses `x`."""
+        t = st.test
+        if not (isinstance(t, ast.BoolOp) and isinstance(t.op, ast.Or) and len(t.values) == 2):
+            return st
+        a, b = t.values
+        x, neg = self.none_test(a, set())
+        if not ((x is not None and neg and x in reads([b])) or self.may_raise(b)):
+            return st
+        inner = ast.copy_location(ast.If(test=b, body=st.body, orelse=st.orelse), st)
+        return ast.copy_location(ast.If(test=a, body=st.body, orelse=[inner]), st)
 
     def narrow_target(self, st):
         """`x` when `st` is `assert x is not None` on a plain local name."""
@@ -534,7 +881,7 @@ class FunctionTranslator:
         return None
 
     def drop_nn(self, env, names):
-        return env - {nn(n) for n in names}
+        return env - {nn(n) for n in names} - {isnone(n) for n in names}
 
     def infer_block(self, stmts, env):
         """Joins the types of everything assigned in `stmts`; `env` carries the narrowings
@@ -551,9 +898,24 @@ class FunctionTranslator:
                 ty = self.expr(value, env, [])[1]
                 for _ in idx:
                     ty = tlist(ty)
-                if key not in self.types:
+                if key not in self.types and not self.is_attr_key(key):
                     raise Unsupported(st, f"unknown name `{key}`")
                 self.set_type(key, ty, st)
+            elif aug_setitem(st):
+                key, ix, op, value = aug_setitem(st)
+                if key not in self.types and not self.is_attr_key(key):
+                    raise Unsupported(st, f"unknown name `{key}`")
+                load = ast.copy_location(ast.BinOp(left=st.target, op=op, right=value), st)
+                self.set_type(key, tlist(self.expr(load, env, [])[1]), st)
+            elif append_item(st):
+                key, ix, arg = append_item(st)
+                if key not in self.types and not self.is_attr_key(key):
+                    raise Unsupported(st, f"unknown name `{key}`")
+                self.set_type(key, tlist(tlist(self.expr(arg, env, [])[1])), st)
+            elif isinstance(st, ast.FunctionDef) and st in self.nested:
+                pass
+            elif isinstance(st, ast.Expr) and isinstance(st.value, ast.Call) and not append_call(st):
+                self.expr(st.value, env, [])  # a call made for its effect on an object
             elif isinstance(st, (ast.Assign, ast.AugAssign, ast.AnnAssign)):
                 name, value = stmt_target(st)
                 if isinstance(st, ast.AnnAssign):
@@ -564,8 +926,10 @@ class FunctionTranslator:
                 name, arg = append_call(st)
                 self.set_type(name, tlist(self.expr(arg, env, [])[1]), st)
             elif isinstance(st, ast.If):
-                self.infer_block(st.body, env)
-                self.infer_block(st.orelse, env)
+                st = self.split_test(st)
+                x, neg = self.none_test(st.test, env)
+                self.infer_block(st.body, env | ({nn(x)} if x and not neg else set()))
+                self.infer_block(st.orelse, env | ({nn(x)} if x and neg else set()))
                 env = self.drop_nn(env, assigned(st.body) | assigned(st.orelse))
             elif isinstance(st, ast.For):
                 env = self.drop_nn(env, assigned(st.body))
@@ -577,7 +941,11 @@ class FunctionTranslator:
                 env = self.drop_nn(env, assigned(st.body))
                 self.infer_block(st.body, env)
             elif isinstance(st, ast.Return) and st.value is not None:
-                self.ret_type = join(self.ret_type, self.expr(st.value, env, [])[1], st)
+                self.in_return = True
+                try:
+                    self.ret_type = join(self.ret_type, self.expr(st.value, env, [])[1], st)
+                finally:
+                    self.in_return = False
             elif isinstance(st, ast.Assert):
                 x = self.narrow_target(st)
                 if x is not None and x in self.types and not x.startswith("self."):
@@ -649,8 +1017,36 @@ class FunctionTranslator:
         fresh = (isinstance(value, (ast.List, ast.ListComp))
                  or (isinstance(value, ast.Call) and isinstance(value.func, ast.Name) and value.func.id == "list")
                  or (isinstance(value, ast.BinOp) and isinstance(value.op, ast.Mult)))
+        if isinstance(value, ast.Call) and self.fresh_call(value):
+            fresh = True
+        if isinstance(value, ast.Subscript) and isinstance(value.slice, ast.Slice):
+            fresh = True  # a slice is a new list (of elements that are not lists: checked where it is built)
         if not fresh:
             raise Unsupported(node, "aliasing of a list (a later in-place change would be shared)")
+
+    def callee_sig(self, node):
+        """The translator of the (nested / module / method) function called by `node`, or its signature."""
+        f = node.func
+        if isinstance(f, ast.Name):
+            if f.id in self.local_fns:
+                return self.local_fns[f.id].signature()
+            if self.parent is not None and f.id == self.fn.name:
+                return self.signature()
+            return self.mod.sigs.get(f.id)
+        if isinstance(f, ast.Attribute) and isinstance(f.value, ast.Name) and is_struct(self.types.get(f.value.id)):
+            q = f"{self.types[f.value.id][1]}.{f.attr}"
+            return self.signature() if q == self.qual else self.mod.msigs.get(q)
+        return None
+
+    def fresh_call(self, node):
+        """The value of this call is a NEW object: `deepcopy(x)`, or the result of a translated function
+        that never returns one of its parameters / attributes (objects INSIDE the result may still be
+        shared with the arguments: `check_moves` forbids changing those afterwards)."""
+        f = node.func
+        if isinstance(f, ast.Name) and f.id == "deepcopy" and self.mod.deepcopy:
+            return True
+        sig = self.callee_sig(node)
+        return sig is not None and not sig.get("ret_alias")
 
     def expr(self, node, defined, hoists):
         """-> (Lean text, type).  `defined` = set of bound names (contains INFER during inference) and
@@ -698,7 +1094,12 @@ class FunctionTranslator:
             op = node.op
             if isinstance(op, ast.Add):
                 if is_list(lt) or is_list(rt):
-                    raise Unsupported(node, "list concatenation")
+                    # a new list; the operands must be locals that die with the `return`
+                    ok = (self.in_return and all(isinstance(x, ast.Name) and x.id not in self.params
+                                                 for x in (node.left, node.right)))
+                    if not ok or not (is_list(lt) and is_list(rt)):
+                        raise Unsupported(node, "list concatenation (supported: `return a + b` on two local lists)")
+                    return f"({l} ++ {r})", join(lt, rt, node)
                 return self.arith(node, l, lt, r, rt, "+")
             if isinstance(op, ast.Sub):
                 return self.arith(node, l, lt, r, rt, "-")
@@ -758,6 +1159,10 @@ class FunctionTranslator:
             items = [self.expr(e, defined, hoists) for e in node.elts]
             for (_, t), e in zip(items, node.elts):
                 ty = join(ty, t, node)
+                if self.in_return and isinstance(e, ast.Name) and has_list(t):
+                    # `return [x]`: the result shares `x` with the caller's argument / a local that dies
+                    # here; nothing changes `x` after this point (see `check_moves`)
+                    continue
                 self.check_fresh(e, t, e)
             return "[" + ", ".join(self.coerce(t, tt, ty, node) for t, tt in items) + "]", tlist(ty)
         if isinstance(node, ast.ListComp):
@@ -765,7 +1170,16 @@ class FunctionTranslator:
         if isinstance(node, ast.Subscript):
             s, st = self.expr(node.value, defined, hoists)
             if isinstance(node.slice, ast.Slice):
-                raise Unsupported(node, "slices")
+                sl = node.slice
+                if sl.lower is None or sl.upper is not None or sl.step is not None:
+                    raise Unsupported(node, "slices (supported: `x[k:]`)")
+                k, kt = self.expr(sl.lower, defined, hoists)
+                self.need(kt, (NAT,), node, "slice bound that may be negative")
+                if not is_list(st) and not (self.dry and st == BOT):
+                    raise Unsupported(node, "slice of something that is not a list")
+                if is_list(st) and has_list(st[1]):
+                    raise Unsupported(node, "slice of a list of lists (the rows would be shared)")
+                return f"(List.drop {k} {s})", st
             i, it = self.expr(node.slice, defined, hoists)
             if not is_list(st) and not (self.dry and st == BOT):
                 raise Unsupported(node, "indexing something that is not a list")
@@ -795,13 +1209,16 @@ class FunctionTranslator:
         return f"(List.replicate {f'(Int.toNat {n})' if nt == INT else n} {e})", tlist(et)
 
     def listcomp(self, node, defined, hoists):
-        """`[e for x in seq]` with a non-raising `e`: `List.map (fun x => e) seq`."""
-        if len(node.generators) != 1 or node.generators[0].ifs or node.generators[0].is_async:
+        """`[e for x in seq]` with a non-raising `e`: `List.map (fun x => e) seq`;
+        `[e for x in seq if c]`: the same on `List.filter (fun x => c) seq` (no map when `e` is `x`)."""
+        if len(node.generators) != 1 or len(node.generators[0].ifs) > 1 or node.generators[0].is_async:
             raise Unsupported(node, "comprehension with conditions / several generators")
         gen = node.generators[0]
         targets = loop_targets(gen)
         for t in targets:
-            if t != "_" and (t in self.types or t in self.params):
+            # (a comprehension has its own scope: a variable of the function that is not live here may share
+            # the name)
+            if t != "_" and (t in self.params or (t in self.types and INFER not in defined and t in defined)):
                 raise Unsupported(node, f"comprehension variable `{t}` is also a variable of the function")
         seq, tys, pat = self.iter_parts(gen, defined, hoists)
         saved = dict(self.types)
@@ -811,18 +1228,168 @@ class FunctionTranslator:
                 if t != "_":
                     lean_name(t, node)
                     self.types[t] = ty
-            e, et = self.expr(node.elt, defined | {t for t in targets if t != "_"}, inner)
+            inside = defined | {t for t in targets if t != "_"}
+            e, et = self.expr(node.elt, inside, inner)
+            cond = self.prop(gen.ifs[0], inside, inner) if gen.ifs else None
         finally:
             self.types = saved
         if inner:
             raise Unsupported(node, "raising expression inside a comprehension")
-        self.check_fresh(node.elt, et, node.elt)
+        same = isinstance(node.elt, ast.Name) and targets == [node.elt.id]
+        if same and has_list(et):
+            # the rows of the result ARE rows of `seq`: sound when `seq` is a local that dies here
+            if not self.dry and not (self.in_return and isinstance(gen.iter, ast.Name)
+                                     and gen.iter.id not in self.params):
+                raise Unsupported(node, "aliasing of a list (supported: `return [x for x in local if ..]`)")
+        else:
+            self.check_fresh(node.elt, et, node.elt)
+        if cond is not None:
+            seq = f"(List.filter (fun {pat} => decide ({cond})) {seq})"
+            if same:
+                return seq, tlist(et)
         return f"(List.map (fun {pat} => {e}) {seq})", tlist(et)
 
+    def translated_call(self, node, defined, hoists):
+        """A call of a nested function, of a method of a translated class, or of the function itself:
+        hoisted (it may raise); a method that changes its receiver `x` also rebinds `x`
+        (`| .ok (x, t_) =>`); a recursive call goes to `f.rec_ fuel_`."""
+        f = node.func
+        sig = self.callee_sig(node)
+        if sig is None:
+            raise Unsupported(node, "call of a function / method that is not translated (yet)")
+        recursive = sig["name"] == self.name
+        if recursive and self.loop_depth:
+            raise Unsupported(node, "recursive call inside a loop")
+        names = sig["params"]
+        recv = None
+        if isinstance(f, ast.Attribute):
+            recv = f.value.id
+            names = names[1:]
+        actual = dict(zip(names, node.args))
+        if len(node.args) > len(names):
+            raise Unsupported(node, "wrong number of arguments")
+        for k in node.keywords:
+            if k.arg is None or k.arg not in names or k.arg in actual:
+                raise Unsupported(node, "unsupported keyword argument")
+            actual[k.arg] = k.value
+        if set(actual) != set(names):
+            raise Unsupported(node, "wrong number of arguments")
+        # Python evaluates positional arguments, then keyword arguments, in the order written
+        order = list(node.args) + [k.value for k in node.keywords]
+        texts = {}
+        for a in order:
+            name = next(n for n, v in actual.items() if v is a)
+            want = sig["param_tys"][sig["params"].index(name)]
+            t, ty = self.expr(a, defined, hoists)
+            if ty == INT and want == NAT:
+                raise Unsupported(a, "argument that may be negative for a parameter translated as Nat")
+            texts[name] = self.coerce(t, ty, want, a)
+        args = [texts[n] for n in names]
+        t = self.tmp()
+        head = sig["name"] + (".rec_ fuel_" if recursive else "")
+        if sig["elem"]:
+            head += self.mod.elem_args
+        if sig["ord"]:
+            self.need_ord(node)
+            head += " ord_"
+        pat = t
+        if recv is not None:
+            r, _ = self.var_ref(recv, node, defined)
+            if sig["mut"]:
+                self.check_receiver(recv, node, defined)
+                pat = f"({r}, {t})"
+            args = [r] + args
+        hoists.append((pat, f"{head} " + " ".join(args), None))
+        return t, sig["ret_ty"]
+
+    def need_ord(self, node):
+        if self.loop_depth:
+            raise Unsupported(node, "iteration over a set inside a loop")
+        self.uses_ord = True
+
+    def check_receiver(self, recv, node, defined):
+        """`recv.m(..)` changes `recv` in place: `recv` must be `self` inside a method that is translated
+        in state-passing style, or a local object (never a parameter: the caller would see the change);
+        nothing else in the statement may read the state of `recv` at a time the translation would get
+        wrong (see `check_stale`)."""
+        if recv == "self":
+            if not self.mut:
+                raise Unsupported(node, "call that changes `self` in a method that does not return it")
+        elif recv in self.params:
+            raise Unsupported(node, "in-place change of a parameter (mutation visible to the caller)")
+        elif recv not in self.vars:
+            raise Unsupported(node, f"unknown name `{recv}`")
+        if not self.dry:
+            self.check_stale(node, recv)
+
+    def check_stale(self, call, recv):
+        """The other mentions of `recv` in the statement of `call`.  After the call, the Lean name `recv`
+        denotes the NEW state; a text produced before the call and used after it would read the new
+        state where Python read the old one.  Allowed: `recv.attr[i]` (hoisted into a temporary at its
+        own time), `recv` as receiver of another translated method (hoisted too), the bare reference
+        `recv` passed as an argument (it denotes the object, whose state is the current one), and the
+        target of the assignment (evaluated after the right-hand side)."""
+        root = self.cur_stmt
+        if root is None:
+            raise Unsupported(call, "call that changes an object in an unsupported position")
+        parent = {}
+        for n in ast.walk(root):
+            for c in ast.iter_child_nodes(n):
+                parent[c] = n
+        targets = []
+        if isinstance(root, ast.Assign):
+            targets = root.targets
+        elif isinstance(root, (ast.AugAssign, ast.AnnAssign)):
+            targets = [root.target]
+        in_target = {id(n) for t in targets for n in ast.walk(t)}
+        for n in ast.walk(root):
+            if not (isinstance(n, ast.Name) and n.id == recv) or id(n) in in_target:
+                continue
+            up = parent.get(n)
+            if isinstance(up, ast.Attribute):
+                up2 = parent.get(up)
+                if isinstance(up2, ast.Call) and up2.func is up:
+                    continue  # receiver of a method call (this one or another hoisted one)
+                if isinstance(up2, ast.Subscript) and up2.value is up and not isinstance(up2.slice, ast.Slice):
+                    continue  # hoisted load
+            elif isinstance(up, (ast.Call, ast.keyword)):
+                continue  # a bare reference passed on
+            raise Unsupported(n, f"`{recv}` is read in the same statement as a call that changes it")
+
     def call(self, node, defined, hoists):
+        f = node.func
+        if isinstance(f, ast.Name) and (f.id in self.local_fns or (self.parent is not None and f.id == self.fn.name)):
+            return self.translated_call(node, defined, hoists)
+        if isinstance(f, ast.Attribute) and isinstance(f.value, ast.Name) \
+                and is_struct(self.types.get(f.value.id)) and not node.keywords:
+            return self.translated_call(node, defined, hoists)
         if node.keywords:
             raise Unsupported(node, "keyword arguments")
-        f = node.func
+        if isinstance(f, ast.Name) and f.id == "deepcopy" and len(node.args) == 1 and self.mod.deepcopy:
+            # value semantics: a deep copy is the same value (and a new object: see `fresh_call`)
+            s, st = self.expr(node.args[0], defined, hoists)
+            if uses_elem(st):
+                raise Unsupported(node, "deepcopy of opaque elements")
+            if not isinstance(node.args[0], ast.Name):
+                raise Unsupported(node, "deepcopy of anything but a variable")
+            return s, st
+        if isinstance(f, ast.Name) and f.id == "list" and len(node.args) == 1 \
+                and isinstance(node.args[0], ast.Call) and isinstance(node.args[0].func, ast.Name) \
+                and not node.args[0].keywords:
+            inner = node.args[0]
+            if inner.func.id == "range":
+                gen = ast.copy_location(ast.comprehension(target=ast.Name(id="_", ctx=ast.Store()), iter=inner,
+                                                          ifs=[], is_async=0), inner)
+                seq, tys, _ = self.iter_parts(gen, defined, hoists)
+                return seq, tlist(tys[0])
+            if inner.func.id == "set" and len(inner.args) == 1 and "set" not in self.mod.rebound:
+                # `list(set(xs))`: the elements of `xs` without repetition, in the iteration order of the
+                # set, which Python does not specify: the explicit parameter `ord_`
+                s, st = self.expr(inner.args[0], defined, hoists)
+                if st != tlist(NAT) and not (self.dry and has_bot(st)):
+                    raise Unsupported(node, "`set` of anything but non-negative ints")
+                self.need_ord(node)
+                return f"(Py.listOfSet ord_ {s})", tlist(NAT)
         if isinstance(f, ast.Name) and f.id in self.mod.sigs:
             sig = self.mod.sigs[f.id]
             if len(node.args) != len(sig["param_tys"]):
@@ -961,7 +1528,7 @@ class FunctionTranslator:
                 if any(self.may_raise(v) for _, v in tuple_assign(st)):
                     return False
                 continue
-            if setitem(st):
+            if setitem(st) or aug_setitem(st):
                 return False
             if isinstance(st, (ast.Assign, ast.AugAssign, ast.AnnAssign)):
                 if self.may_raise(stmt_target(st)[1]):
@@ -1006,7 +1573,10 @@ class FunctionTranslator:
         if name in self.params:
             raise Unsupported(st, "in-place change of a parameter (mutation visible to the caller)")
         if self.kind == "method" and name.startswith("self."):
-            raise Unsupported(st, "in-place change of an attribute outside `__init__`")
+            if not self.mut:
+                raise Unsupported(st, "in-place change of an attribute outside `__init__`")
+            self.place(name, st, defined)
+            return
         if name not in self.types:
             raise Unsupported(st, f"unknown name `{name}`")
         if name not in defined:
@@ -1023,6 +1593,9 @@ class FunctionTranslator:
 
         if is_docstring(st) or isinstance(st, ast.Pass):
             return cont(defined)
+        if isinstance(st, ast.FunctionDef) and st in self.nested:
+            return cont(defined)
+        self.cur_stmt = st
 
         if tuple_assign(st):
             pairs = tuple_assign(st)
@@ -1046,7 +1619,7 @@ class FunctionTranslator:
         if setitem(st):
             key, idx, value = setitem(st)
             self.check_mutable(key, defined, st)
-            want = self.types[key]
+            base, want = self.place(key, st, defined)
             hoists = []
             text, ty = self.expr(value, defined, hoists)  # Python evaluates the right-hand side first
             cell = want
@@ -1058,7 +1631,6 @@ class FunctionTranslator:
                 raise Unsupported(st, f"cannot infer the type of `{key}`")
             self.check_fresh(value, cell, st)
             v = self.coerce(text, ty, cell, st)
-            base = lean_name(key, st)
             conts = [base]
             ixs = []
             for n, ix in enumerate(idx):
@@ -1074,8 +1646,61 @@ class FunctionTranslator:
                 t = self.tmp()
                 hoists.append((t, f"{'Py.setInt?' if it == INT else 'Py.setNat?'} {c} {i} {v}", ".IndexError"))
                 v = t
-            line = f"let {base} : {show_ty(want)} := {v}"
+            line = self.store(key, v, st)
             return self.wrap_hoists(hoists, [line] + cont(defined), ctx)
+
+        if aug_setitem(st):
+            # `x[i] op= v`: the container and the index are evaluated once, the item is loaded, then `v`
+            key, ix, op, value = aug_setitem(st)
+            self.check_mutable(key, defined, st)
+            base, want = self.place(key, st, defined)
+            if not is_list(want) or has_bot(want) or has_list(want[1]):
+                raise Unsupported(st, "augmented item assignment on something that is not a list of numbers")
+            hoists = []
+            i, it = self.expr(ix, defined, hoists)
+            self.need(it, (NAT, INT) if self.mod.int_ty == INT else (NAT,), st, "index that may be negative")
+            t0 = self.tmp()
+            hoists.append((t0, f"Py.getInt? {base} {i}" if it == INT else f"{base}[{i}]?", ".IndexError"))
+            sym = {ast.Add: "+", ast.Sub: "-", ast.Mult: "*"}.get(type(op))
+            if sym is None:
+                raise Unsupported(st, "augmented item assignment with an operator other than + - *")
+            r, rt = self.expr(value, defined, hoists)
+            text, ty = self.arith(st, t0, want[1], r, rt, sym)
+            if ty == INT and want[1] == NAT:
+                raise Unsupported(st, "item that may become negative in a list of non-negative ints")
+            v = self.coerce(text, ty, want[1], st)
+            t = self.tmp()
+            # (the object may have changed while `v` was evaluated: the container is read again)
+            base2, _ = self.place(key, st, defined)
+            hoists.append((t, f"{'Py.setInt?' if it == INT else 'Py.setNat?'} {base2} {i} {v}", ".IndexError"))
+            return self.wrap_hoists(hoists, [self.store(key, t, st)] + cont(defined), ctx)
+
+        if append_item(st):
+            # `x[i].append(v)`: x, i, the row `x[i]`, then `v`; rows are never shared (see `check_fresh`)
+            key, ix, arg = append_item(st)
+            self.check_mutable(key, defined, st)
+            base, want = self.place(key, st, defined)
+            if not (is_list(want) and is_list(want[1])) or has_bot(want):
+                raise Unsupported(st, "append to something that is not a row of a list of lists")
+            hoists = []
+            i, it = self.expr(ix, defined, hoists)
+            self.need(it, (NAT, INT) if self.mod.int_ty == INT else (NAT,), st, "index that may be negative")
+            row = self.tmp()
+            hoists.append((row, f"Py.getInt? {base} {i}" if it == INT else f"{base}[{i}]?", ".IndexError"))
+            text, ty = self.expr(arg, defined, hoists)
+            self.check_fresh(arg, want[1][1], st)
+            t = self.tmp()
+            hoists.append((t, f"{'Py.setInt?' if it == INT else 'Py.setNat?'} {base} {i} "
+                              f"({row} ++ [{self.coerce(text, ty, want[1][1], st)}])", ".IndexError"))
+            return self.wrap_hoists(hoists, [self.store(key, t, st)] + cont(defined), ctx)
+
+        if isinstance(st, ast.Expr) and isinstance(st.value, ast.Call) and not append_call(st):
+            # a call made for its effect: the receiver of a method that changes it is rebound
+            if not mut_receiver(st.value):
+                raise Unsupported(st, "call whose result is not used")
+            hoists = []
+            self.expr(st.value, defined, hoists)
+            return self.wrap_hoists(hoists, cont(defined), ctx)
 
         if isinstance(st, (ast.Assign, ast.AugAssign, ast.AnnAssign)):
             name, value = stmt_target(st)
@@ -1083,6 +1708,17 @@ class FunctionTranslator:
                 raise Unsupported(st, "assignment to `_`")
             hoists = []
             text, ty = self.expr(value, defined, hoists)
+            if self.is_attr_key(name):
+                # `self.attr = e` in a method: a new `self`.  List attributes keep the list `__init__` gave
+                # them (they are changed in place only), so that a reference to one never goes stale.
+                self.check_mutable(name, defined, st)
+                _, want = self.place(name, st, defined)
+                if has_list(want):
+                    raise Unsupported(st, "re-binding of a list attribute outside `__init__`")
+                if mut_receiver(value) == "self" or any(mut_receiver(sub) == "self" for sub in ast.walk(value)):
+                    raise Unsupported(st, "attribute assigned from a call that changes `self`")
+                line = self.store(name, self.coerce(text, ty, want, st), st)
+                return self.wrap_hoists(hoists, [line] + cont(defined), ctx)
             want = self.types[name]
             if is_list(want) and isinstance(value, ast.Name):
                 raise Unsupported(st, "aliasing of a list (a later append would be shared)")
@@ -1099,12 +1735,17 @@ class FunctionTranslator:
             if name in self.params:
                 raise Unsupported(st, "append to a parameter (mutation visible to the caller)")
             self.check_mutable(name, defined, st)
-            want = self.types[name]
+            base, want = self.place(name, st, defined)
             if not is_list(want) or has_bot(want):
                 raise Unsupported(st, "append to something that is not a list")
             hoists = []
             text, ty = self.expr(arg, defined, hoists)
             self.check_fresh(arg, want[1], st)
+            if self.is_attr_key(name):
+                if any(mut_receiver(sub) == "self" for sub in ast.walk(arg)):
+                    raise Unsupported(st, "append to an attribute of a value computed by changing `self`")
+                line = self.store(name, f"{base} ++ [{self.coerce(text, ty, want[1], st)}]", st)
+                return self.wrap_hoists(hoists, [line] + cont(defined), ctx)
             line = (f"let {lean_name(name, st)} : {show_ty(want)} := "
                     f"{lean_name(name, st)} ++ [{self.coerce(text, ty, want[1], st)}]")
             return self.wrap_hoists(hoists, [line] + cont(defined), ctx)
@@ -1135,7 +1776,11 @@ class FunctionTranslator:
             if rest:
                 raise Unsupported(rest[0], "unreachable statement")
             hoists = []
-            text, ty = self.expr(st.value, defined, hoists)
+            self.in_return = True
+            try:
+                text, ty = self.expr(st.value, defined, hoists)
+            finally:
+                self.in_return = False
             return self.wrap_hoists(hoists, ctx.ret(self.coerce(text, ty, self.ret_type, st)), ctx)
 
         if isinstance(st, (ast.Break, ast.Continue)):
@@ -1155,12 +1800,32 @@ class FunctionTranslator:
         raise Unsupported(st)
 
     def comp_if(self, st, rest, k, ctx, defined):
+        st = self.split_test(st)
+        self.cur_stmt = st.test
+        known = self.static_none_test(st.test, defined)
+        if known is not None:
+            taken = st.body if known else st.orelse
+            return self.comp(taken + ([] if always_exits(taken) else rest), k, ctx, defined)
+        x, neg = self.none_test(st.test, defined)
+        if x is not None and x in defined:
+            # `if x is not None: A else: B`  ->  match x with | some x => A | none => B
+            self.no_narrowed([x], defined, st, "tested again")
+            text, ty = self.var_ref(x, st, defined)
+            if has_bot(ty):
+                raise Unsupported(st, f"cannot infer the type of `{x}`")
+            yes, no = (st.orelse, st.body) if neg else (st.body, st.orelse)
+            some = self.comp(yes + ([] if always_exits(yes) else rest), k, ctx, defined | {nn(x)})
+            none = self.comp(no + ([] if always_exits(no) else rest), k, ctx, defined | {isnone(x)})
+            arms = [(f"| some {text} =>", some), ("| none =>", none)]
+            if neg:
+                arms.reverse()
+            return self.count([f"match {text} with"] + [l for head, body in arms for l in [head] + indent(body)])
         hoists = []
         c = self.prop(st.test, defined, hoists)
         if self.is_pure_block(st.body) and self.is_pure_block(st.orelse):
-            touched = assigned(st.body) | assigned(st.orelse)
+            touched = self.assigned_(st.body) | self.assigned_(st.orelse)
             self.no_narrowed(touched, defined, st, "assigned under an `if`")
-            after = defined | (assigned(st.body) & assigned(st.orelse))
+            after = defined | (self.assigned_(st.body) & self.assigned_(st.orelse))
             written = [v for v in self.vars if v in touched and v in after]
             if not written:
                 return self.wrap_hoists(hoists, self.comp(rest, k, ctx, defined), ctx)
@@ -1234,7 +1899,7 @@ class FunctionTranslator:
         """State variables and free variables of a loop body."""
         if st.orelse:
             raise Unsupported(st, "loop with an else clause")
-        body_assigned = assigned(st.body)
+        body_assigned = self.assigned_(st.body)
         for t in targets:
             if t == "_":
                 continue
@@ -1262,6 +1927,8 @@ class FunctionTranslator:
         out = ""
         if self.elem_used():
             out += self.mod.elem_binders
+        if self.uses_ord and params:
+            out += " (ord_ : List Nat → List Nat)"
         for v in names:
             ty = self.param_types[v] if params else self.types[v]
             out += f" ({lean_name(v)} : {show_ty(ty)})"
@@ -1270,7 +1937,7 @@ class FunctionTranslator:
     def loop_call_site(self, name, free, seed, state, cont, ctx, defined):
         pat = self.state_pat(state)
         args = self.elem_args() + "".join(" " + lean_name(v) for v in free)
-        ret = ctx.ret("v_")
+        ret = ctx.raw("v_")
         lines = [f"match {name}{args} {seed} {pat} with",
                  f"| .err e_ => {ctx.err('e_')}"]
         lines += [f"| .ret v_ => {ret[0]}"] if len(ret) == 1 else ["| .ret v_ =>"] + indent(ret)
@@ -1280,6 +1947,7 @@ class FunctionTranslator:
     def comp_for(self, st, cont, ctx, defined):
         hoists = []
         targets = loop_targets(st)
+        self.cur_stmt = st.iter
         seq, tys, elem_pat = self.iter_parts(st, defined, hoists)
         for t, ty in zip(targets, tys):
             if t != "_" and (has_bot(ty) or self.types[t] != ty):
@@ -1290,13 +1958,17 @@ class FunctionTranslator:
         state, free, name = self.loop_frame(st, defined, targets)
         pat = self.state_pat(state)
         sigma = tup_ty([self.types[v] for v in state])
-        rho = paren_ty(self.ret_type)
+        rho = self.rho()
         args = self.elem_args() + "".join(" " + lean_name(v) for v in free)
         rec = [f"{name}{args} it_ {pat}"]
-        lctx = Ctx(ret=lambda v: [f".ret {v}"], err=lambda e: f".err {e}",
-                   brk=lambda d: [f".next {pat}"], cont=lambda d: rec)
+        lctx = Ctx(ret=lambda v: [f".ret {self.ret_text(v)}"], err=lambda e: f".err {e}",
+                   brk=lambda d: [f".next {pat}"], cont=lambda d: rec, raw=lambda v: [f".ret {v}"])
         inner = self.drop_nn(defined, assigned(st.body)) | {t for t in targets if t != "_"}
-        body = self.comp(st.body, lambda d: rec, lctx, inner)
+        self.loop_depth += 1
+        try:
+            body = self.comp(st.body, lambda d: rec, lctx, inner)
+        finally:
+            self.loop_depth -= 1
         elem_ty = tup_ty(list(reversed(tys))) if len(tys) == 2 else show_ty(tys[0])
         text = [f"def {name}{self.binder_text(free)} :",
                 f"    List {paren_ty(elem_ty)} → {paren_ty(sigma)} → Py.Ctl {paren_ty(sigma)} {rho}",
@@ -1343,18 +2015,23 @@ class FunctionTranslator:
 
     def comp_while(self, st, cont, ctx, defined):
         x = self.while_variant(st)
+        self.cur_stmt = st.test
         if self.may_raise(st.test):
             raise Unsupported(st, "raising expression in a loop condition")
         state, free, name = self.loop_frame(st, defined, [])
         c = self.prop(st.test, defined, [])
         pat = self.state_pat(state)
         sigma = tup_ty([self.types[v] for v in state])
-        rho = paren_ty(self.ret_type)
+        rho = self.rho()
         args = self.elem_args() + "".join(" " + lean_name(v) for v in free)
         rec = [f"{name}{args} fuel_ {pat}"]
-        lctx = Ctx(ret=lambda v: [f".ret {v}"], err=lambda e: f".err {e}",
-                   brk=lambda d: [f".next {pat}"], cont=None)
-        body = self.comp(st.body, lambda d: rec, lctx, self.drop_nn(defined, assigned(st.body)))
+        lctx = Ctx(ret=lambda v: [f".ret {self.ret_text(v)}"], err=lambda e: f".err {e}",
+                   brk=lambda d: [f".next {pat}"], cont=None, raw=lambda v: [f".ret {v}"])
+        self.loop_depth += 1
+        try:
+            body = self.comp(st.body, lambda d: rec, lctx, self.drop_nn(defined, assigned(st.body)))
+        finally:
+            self.loop_depth -= 1
         text = [f"def {name}{self.binder_text(free)} :",
                 f"    Nat → {paren_ty(sigma)} → Py.Ctl {paren_ty(sigma)} {rho}",
                 f"  | 0, {pat} => if {c} then .err .Diverged else .next {pat}",
@@ -1381,20 +2058,114 @@ class FunctionTranslator:
             fields = ", ".join(f"{lean_name(a)} := {lean_name('self.' + a)}" for a in self.attrs)
             return [f".ok {{ {fields} }}"]
 
-        ctx = Ctx(ret=lambda v: [f".ok {v}"], err=lambda e: f".error {e}")
-        body = self.comp(list(self.fn.body), fall_off, ctx, set(self.params))
+        for sub in self.local_fns.values():
+            self.aux.append(sub.translate())
+            self.uses_ord = self.uses_ord or sub.uses_ord
+        self.check_moves()
+        ctx = Ctx(ret=lambda v: [f".ok {self.ret_text(v)}"], err=lambda e: f".error {e}", raw=lambda v: [f".ok {v}"])
+        body = self.comp(list(self.fn_body), fall_off, ctx, set(self.params))
         # a parameter re-assigned at a wider type (`stop = min(stop, last)` with an Int `last`)
         casts = [f"let {lean_name(p)} : {show_ty(self.types[p])} := "
                  f"{self.coerce(lean_name(p), self.param_types[p], self.types[p], self.fn)}"
                  for p in self.params if self.types[p] != self.param_types[p]]
         head = (f"def {self.name}{self.binder_text(self.params, params=True)} : "
-                f"Except Py.Err {paren_ty(self.ret_type)} :=")
+                f"Except Py.Err {self.rho()} :=")
+        if self.recursive:
+            return "\n\n".join(self.aux + self.recursive_text(head, casts + body))
         return "\n\n".join(self.aux + ["\n".join([head] + indent(casts + body))])
+
+    def recursive_text(self, head, body):
+        """A recursive function: `f.rec_` recurses on an explicit fuel (`.error .Diverged` when it runs
+        out; that it never does on the inputs covered is part of the equivalence proofs), `f` calls it
+        with the fuel DECLARED for `f` in the ModuleSpec (an expression over the parameters)."""
+        src = self.mod.fuel.get(self.qual)
+        if src is None:
+            raise Unsupported(self.fn, "recursive function without a declared fuel")
+        if self.elem_used() or self.uses_ord:
+            raise Unsupported(self.fn, "recursive function over opaque elements / sets")
+        hoists = []
+        saved = self.dry
+        try:
+            fuel, fty = self.expr(ast.parse(src, mode="eval").body, set(self.params), hoists)
+        finally:
+            self.dry = saved
+        if hoists or fty != NAT:
+            raise Unsupported(self.fn, "the declared fuel must be a non-raising expression of type Nat")
+        tys = " → ".join(paren_ty(self.param_types[p]) for p in self.params)
+        pats = ", ".join(lean_name(p) for p in self.params)
+        rec = [f"def {self.name}.rec_ : Nat → {tys} → Except Py.Err {self.rho()}",
+               f"  | 0, {', '.join('_' for _ in self.params)} => .error .Diverged",
+               f"  | fuel_ + 1, {pats} =>"] + indent(body, 4)
+        args = " ".join(lean_name(p) for p in self.params)
+        return ["\n".join(rec), "\n".join([head, f"  {self.name}.rec_ {fuel} {args}"])]
+
+    def check_moves(self):
+        """Value semantics is exact as long as no object is changed while it can be reached through two
+        references.  A mutable variable (list, object) is LEAKED by a statement that hands the bare
+        reference on (argument of a call other than len / deepcopy / list / enumerate, element of a
+        display, operand, returned or assigned value): from there on the callee's result, a container,
+        the caller may hold a second reference to it, so that no statement that comes LATER in the source
+        (or that shares a loop with the leak) may change it in place."""
+        parent = {}
+        for n in ast.walk(ast.Module(body=self.fn_body, type_ignores=[])):
+            for c in ast.iter_child_nodes(n):
+                parent[c] = n
+        safe_calls = {"len", "deepcopy", "list", "enumerate", "bool", "set"}
+
+        def leaks(n):
+            up = parent.get(n)
+            if isinstance(up, (ast.Attribute, ast.Subscript, ast.Compare, ast.BoolOp, ast.UnaryOp, ast.If,
+                               ast.While, ast.Assert, ast.For, ast.comprehension)):
+                return False
+            if isinstance(up, ast.Call) and isinstance(up.func, ast.Name) and up.func.id in safe_calls:
+                return False
+            return True
+
+        def visit(stmts, loops, acc):
+            for st in stmts:
+                if isinstance(st, ast.FunctionDef):
+                    continue
+                if isinstance(st, (ast.For, ast.While)):
+                    acc.append((st, loops, [st.iter] if isinstance(st, ast.For) else [st.test]))
+                    visit(st.body, loops + [st], acc)
+                elif isinstance(st, ast.If):
+                    acc.append((st, loops, [st.test]))
+                    visit(st.body, loops, acc)
+                    visit(st.orelse, loops, acc)
+                else:
+                    acc.append((st, loops, [st]))
+            return acc
+
+        flat = visit(self.fn_body, [], [])
+        for v in self.vars:
+            if not has_list(self.types.get(v, BOT)):
+                continue
+            leak_at = None  # (position, loops) of the first leak
+            for pos, (st, loops, nodes) in enumerate(flat):
+                here = any(isinstance(n, ast.Name) and n.id == v and isinstance(n.ctx, ast.Load) and leaks(n)
+                           for root in nodes for n in ast.walk(root))
+                simple = not isinstance(st, (ast.For, ast.While, ast.If))
+                changes = simple and v in self.assigned_([st]) and not (
+                    isinstance(st, (ast.Assign, ast.AnnAssign)) and stmt_target(st) and stmt_target(st)[0] == v)
+                if changes and leak_at is not None:
+                    raise Unsupported(st, f"`{v}` is changed in place after a reference to it was handed on "
+                                          f"(line {flat[leak_at[0]][0].lineno})")
+                if here and changes:
+                    raise Unsupported(st, f"`{v}` is changed in place by the statement that hands it on")
+                if here and leak_at is None:
+                    leak_at = (pos, loops)
+                    # a change earlier in the same loop comes later in the next iteration
+                    for st2, loops2, _ in flat[:pos]:
+                        if loops and loops2[:1] == loops[:1] and v in self.assigned_([st2]) \
+                                and not isinstance(st2, (ast.For, ast.While, ast.If)):
+                            raise Unsupported(st2, f"`{v}` is changed in place in a loop that also hands it on")
 
     def structure_text(self):
         """The Lean structure of a class, from the attributes its `__init__` stores."""
         lines = [f"structure {self.cls}{' (α : Type)' if self.ret_type[2] else ''} where"]
         lines += [f"  {lean_name(a)} : {show_ty(t)}" for a, t in self.attrs.items()]
+        if not self.ret_type[2] and self.mod.mutators.get(self.cls):
+            lines.append("  deriving DecidableEq, Repr")
         return "\n".join(lines)
 
     def signature(self):
@@ -1407,6 +2178,10 @@ class FunctionTranslator:
             "ret": show_ty(self.ret_type),
             "ret_ty": self.ret_type,
             "elem": self.elem_used(),
+            "params": list(self.params),
+            "mut": self.mut,
+            "ord": self.uses_ord,
+            "ret_alias": self.ret_alias,
         }
 
 
@@ -1417,7 +2192,8 @@ class FunctionTranslator:
 class ModuleSpec:
     def __init__(self, prop, source, namespace, functions, defs_file, equiv_file, proofs_module,
                  equiv, property_modules, refute, imports=(), int_ty=NAT, elem_lt=False,
-                 equiv_custom=None, refute_custom=None, refute_prelude=(), note=None):
+                 equiv_custom=None, refute_custom=None, refute_prelude=(), note=None, param_types=None,
+                 fuel=None, ignored_methods=()):
         self.prop = prop
         self.source = source  # path relative to the repository
         self.namespace = namespace
@@ -1437,16 +2213,26 @@ class ModuleSpec:
         self.refute_custom = refute_custom
         self.refute_prelude = list(refute_prelude)
         self.note = note
+        # qualified python name -> {parameter: annotation text}: DECLARED types of unannotated parameters
+        self.param_types = param_types or {}
+        # qualified python name -> python expression over the parameters: fuel of a recursive function
+        self.fuel = fuel or {}
+        # methods that are not translated; they must not change the object (checked syntactically)
+        self.ignored_methods = list(ignored_methods)
 
     def module_name(self, rel):
         return rel[:-5].replace("/", ".")
 
     def module_ctx(self, elem_names):
         if self.elem_lt:
-            return ModuleCtx(elem_names, self.int_ty,
-                             elem_binders=" {α : Type} (lt_ : α → α → Except Py.Err Bool)",
-                             elem_args=" lt_", has_deq=False, has_lt=True)
-        return ModuleCtx(elem_names, self.int_ty)
+            mod = ModuleCtx(elem_names, self.int_ty,
+                            elem_binders=" {α : Type} (lt_ : α → α → Except Py.Err Bool)",
+                            elem_args=" lt_", has_deq=False, has_lt=True)
+        else:
+            mod = ModuleCtx(elem_names, self.int_ty)
+        mod.param_types = self.param_types
+        mod.fuel = self.fuel
+        return mod
 
 
 def class_parts(cls, spec):
@@ -1463,6 +2249,9 @@ def class_parts(cls, spec):
         if is_docstring(st) or isinstance(st, ast.Pass):
             continue
         if isinstance(st, ast.FunctionDef):
+            if f"{cls.name}.{st.name}" in spec.ignored_methods:
+                check_observer(cls, st, spec)
+                continue
             if f"{cls.name}.{st.name}" not in spec.functions:
                 raise Unsupported(st, f"method `{cls.name}.{st.name}` is not covered by the translation")
             methods[st.name] = st
@@ -1471,15 +2260,109 @@ def class_parts(cls, spec):
     return methods
 
 
+def check_observer(cls, fn, spec):
+    """A method left out of the translation (`__repr__`) must not be able to change the object behind the
+    back of the translated ones: it may read attributes and call TRANSLATED methods, nothing else."""
+    parent = {}
+    for n in ast.walk(fn):
+        for c in ast.iter_child_nodes(n):
+            parent[c] = n
+    for n in ast.walk(fn):
+        if isinstance(n, (ast.Global, ast.Nonlocal, ast.Delete)):
+            raise Unsupported(n, f"untranslated method `{cls.name}.{fn.name}` may change the object")
+        if not (isinstance(n, ast.Name) and n.id == "self"):
+            continue
+        up = parent.get(n)
+        up2 = parent.get(up)
+        ok = False
+        if isinstance(up, ast.Attribute) and isinstance(up.ctx, ast.Load):
+            if isinstance(up2, ast.Call) and up2.func is up:
+                ok = f"{cls.name}.{up.attr}" in spec.functions  # a translated method
+            elif isinstance(up2, ast.Subscript) and up2.value is up:
+                ok = isinstance(up2.ctx, ast.Load)  # self.attr[i] read
+            elif isinstance(up2, ast.Call) and isinstance(up2.func, ast.Name) and up2.func.id == "len":
+                ok = True
+        if not ok:
+            raise Unsupported(n, f"untranslated method `{cls.name}.{fn.name}` may change the object")
+
+
+def mutating_methods(methods):
+    """Names of the methods that change `self`: they assign an attribute / an item of one, append to one,
+    or call such a method on `self` (least fixed point)."""
+    direct, calls = set(), {}
+    for name, fn in methods.items():
+        calls[name] = set()
+        if name == "__init__":
+            continue
+        for n in ast.walk(fn):
+            if isinstance(n, (ast.Attribute, ast.Subscript)) and isinstance(n.ctx, (ast.Store, ast.Del)):
+                base = n
+                while isinstance(base, (ast.Attribute, ast.Subscript)):
+                    base = base.value
+                if isinstance(base, ast.Name) and base.id == "self":
+                    direct.add(name)
+            if isinstance(n, ast.Call) and isinstance(n.func, ast.Attribute):
+                base = n.func.value
+                if isinstance(base, ast.Name) and base.id == "self":
+                    calls[name].add(n.func.attr)
+                    continue
+                while isinstance(base, (ast.Attribute, ast.Subscript)):
+                    base = base.value
+                if isinstance(base, ast.Name) and base.id == "self" \
+                        and n.func.attr not in ("index", "bit_length", "count", "copy"):
+                    direct.add(name)  # self.attr.append(..), self.attr[i].append(..)
+    out = set(direct)
+    while True:
+        more = {m for m, cs in calls.items() if cs & out} - out
+        if not more:
+            return out
+        out |= more
+
+
 def translate_source(text, spec):
     """-> (Lean text of the definitions, signatures).  Raises Unsupported."""
+    saved = set(_MUT["methods"])
+    try:
+        seeds = {}
+        for _ in range(6):
+            # a method may store a wider type in an attribute than `__init__` did (`self.groups -= 1`
+            # makes it an `Int`): the module is translated again with the widened attribute types
+            mod, out, sigs = _translate_source(text, spec, seeds)
+            if not mod.dirty:
+                return out, sigs
+        raise Unsupported("module", "the types of the attributes do not converge")
+    finally:
+        _MUT["methods"] = saved
+
+
+def _translate_source(text, spec, seeds):
     tree = ast.parse(text)
     fns, classes = {}, {}
     wanted = {f.split(".")[0] for f in spec.functions if "." in f}
+    rebound, deepcopy_ok = set(), False
+    for st in ast.walk(tree):
+        # names the translator gives a meaning to although they are not in BUILTINS
+        if isinstance(st, (ast.FunctionDef, ast.ClassDef)) and st.name in ("set", "deepcopy"):
+            rebound.add(st.name)
+        if isinstance(st, ast.Name) and isinstance(st.ctx, (ast.Store, ast.Del)) and st.id in ("set", "deepcopy"):
+            rebound.add(st.id)
+        if isinstance(st, ast.arg) and st.arg in ("set", "deepcopy"):
+            rebound.add(st.arg)
+        if isinstance(st, (ast.Import, ast.ImportFrom)) and st not in tree.body:
+            rebound |= {"set", "deepcopy"}
     for st in tree.body:
         bound = []
         if isinstance(st, (ast.Import, ast.ImportFrom)):
             bound = [(a.asname or a.name).split(".")[0] for a in st.names]
+            for a in st.names:
+                if (a.asname or a.name) == "deepcopy":
+                    if isinstance(st, ast.ImportFrom) and st.module == "copy" and a.name == "deepcopy" \
+                            and st.level == 0:
+                        deepcopy_ok = True
+                    else:
+                        rebound.add("deepcopy")
+                if (a.asname or a.name) == "set":
+                    rebound.add("set")
         elif isinstance(st, (ast.FunctionDef, ast.ClassDef)):
             bound = [st.name]
         elif isinstance(st, ast.Assign):
@@ -1504,6 +2387,12 @@ def translate_source(text, spec):
     elem = [st.targets[0].id for st in tree.body
             if isinstance(st, ast.Assign) and isinstance(st.targets[0], ast.Name)]
     mod = spec.module_ctx(elem or ("Element",))
+    mod.attr_seed = seeds
+    mod.deepcopy = deepcopy_ok and "deepcopy" not in rebound
+    mod.rebound = rebound
+    for cname, methods in classes.items():
+        mod.mutators[cname] = mutating_methods(methods)
+    _MUT["methods"] = set().union(*mod.mutators.values()) if mod.mutators else set()
     out, sigs = [], {}
     for name in spec.functions:
         cls = None
@@ -1530,7 +2419,11 @@ def translate_source(text, spec):
         sigs[name] = ft.signature()
         if cls is None:
             mod.sigs[name] = sigs[name]
-    return "\n\n".join(out), sigs
+        else:
+            mod.msigs[name] = sigs[name]
+        for sub in ft.local_fns.values():
+            sigs[sub.qual] = sub.signature()
+    return mod, "\n\n".join(out), sigs
 
 
 def defs_file_text(spec, sha, body):
@@ -1689,7 +2582,159 @@ RMQ = ModuleSpec(
     ],
 )
 
-SPECS = {"C18": SUBSEQ, "C17": RMQ}
+DSU = ModuleSpec(
+    prop="C20",
+    source="src/superrec2/utils/disjoint_set.py",
+    namespace="SR.Gen.Dsu",
+    functions=["DisjointSet.__init__", "DisjointSet.find", "DisjointSet.unite", "DisjointSet.__len__",
+               "DisjointSet.to_list", "DisjointSet.binary"],
+    defs_file="SRVerif/Generated/DsuPy.lean",
+    equiv_file="SRVerif/Generated/DsuPyEquiv.lean",
+    proofs_module="SRVerif.Proofs.DsuPyEquiv",
+    imports=["SRVerif.Model.DisjointSet"],
+    # `count` carries no annotation in the source: DECLARED an int (recorded precondition, like "non-negative")
+    param_types={"DisjointSet.__init__": {"count": "int"}},
+    # fuel of the two recursive functions (that it suffices is part of the equivalence proofs: `find` walks to
+    # the root of an acyclic forest whose ranks increase, `_binary` consumes one group per call)
+    fuel={"DisjointSet.find": "len(self.parent) + 1", "DisjointSet.binary._binary": "len(groups) + 1"},
+    # formats `to_list()`; reads attributes and calls translated methods only (checked)
+    ignored_methods=["DisjointSet.__repr__"],
+    note=("  PRECONDITION recorded by the translator: `int` values (elements, `count`) are non-negative\n"
+          "  (translated as `Nat`; the counter `groups` is an `Int` because the code subtracts from it).\n"
+          "  A class is a structure of the attributes stored by `__init__`; a method that changes `self`\n"
+          "  returns the new object together with its result (state-passing style), a call `x.m(..)` of\n"
+          "  such a method rebinds `x`.  Objects and lists have value semantics: the translator rejects every\n"
+          "  program in which an object could be changed while reachable through two references, so that\n"
+          "  `deepcopy(x)` is `x`; a RESULT may share objects with the arguments (`self` included): which\n"
+          "  objects are identical is not modelled, only their values at the time of the return.\n"
+          "  Recursive functions (`find`, `_binary`) recurse on an explicit fuel (`f.rec_`; `Err.Diverged`\n"
+          "  when it runs out: never, by the equivalence proofs, on the states they cover).\n"
+          "  `list(set(xs))`: the iteration order of a set is the explicit parameter `ord_` (`Py.listOfSet`).\n"
+          "  `Except.error e` = the Python function raises `e`.\n"),
+    equiv={},
+    # statements about the generated functions, on every state `toGen d` of a model structure `d` that
+    # satisfies the invariant `DS.WF` (parents in range, ranks increasing towards the roots, the rank bound
+    # that makes the fuel of `find` suffice, `groups` = number of roots), elements in range: same result, same
+    # new object, and the invariant is preserved
+    equiv_custom=[
+        ("gen_init_eq_model", "(count : Nat)",
+         "DisjointSet.__init__ count = .ok (DsuPyProofs.toGen (DS.init count)) ∧ DS.WF (DS.init count)",
+         "⟨SR.DsuPyProofs.init_eq count, (SR.DS.inv_init count).wf⟩"),
+        ("gen_find_eq_model", "{d : DS} (hd : DS.WF d) {element : Nat} (he : element < d.size)",
+         "DisjointSet.find (DsuPyProofs.toGen d) element\n"
+         "      = .ok (DsuPyProofs.toGen (d.find element).1, (d.find element).2) ∧ DS.WF (d.find element).1",
+         "⟨SR.DsuPyProofs.find_eq hd he, (SR.DS.find_spec hd he).2.2⟩"),
+        ("gen_unite_eq_model",
+         "{d : DS} (hd : DS.WF d) {first second : Nat} (h1 : first < d.size) (h2 : second < d.size)",
+         "DisjointSet.unite (DsuPyProofs.toGen d) first second\n"
+         "      = .ok (DsuPyProofs.toGen (d.unite first second).1, (d.unite first second).2)\n"
+         "      ∧ DS.WF (d.unite first second).1",
+         "⟨SR.DsuPyProofs.unite_eq hd h1 h2, (SR.DS.unite_spec hd h1 h2).1⟩"),
+        ("gen_len_eq_model", "(d : DS)",
+         "DisjointSet.__len__ (DsuPyProofs.toGen d) = .ok ((d.groups : Nat) : Int)",
+         "SR.DsuPyProofs.len_eq d"),
+        ("gen_to_list_eq_model", "{d : DS} (hd : DS.WF d)",
+         "DisjointSet.to_list (DsuPyProofs.toGen d) = .ok (DsuPyProofs.toGen d.toList.1, d.toList.2)\n"
+         "      ∧ DS.WF d.toList.1",
+         "⟨SR.DsuPyProofs.to_list_eq hd, (SR.DS.toList_eq hd).2.1⟩"),
+        ("gen_binary_eq_model",
+         "{ord : List Nat → List Nat} (hord : Py.SetOrder ord) {d : DS} (hd : DS.WF d)",
+         "DisjointSet.binary ord (DsuPyProofs.toGen d)\n"
+         "      = .ok (DsuPyProofs.toGen d.allReps.1,\n"
+         "             (DS.binGo (Py.listOfSet ord d.allReps.2) d.allReps.1 none none).map DsuPyProofs.toGen)\n"
+         "      ∧ DS.WF d.allReps.1",
+         "⟨SR.DsuPyProofs.binary_eq hord hd, (SR.DS.allReps_fold hd d.size (Nat.le_refl _)).2.1⟩"),
+    ],
+    property_modules=["C20Code"],
+    refute={},
+    # Bounded refutation search (classification only, never evidence).  What is compared is what the PROPERTY
+    # observes, not the representation: the flags returned by the `unite`s of a history, `len`, the partition
+    # (canonical labelling through `find`), `to_list` as a set of ascending groups, `binary` as a multiset of
+    # partitions, and the partition left behind by `to_list` / `binary`.  A rewrite that changes which root
+    # represents a class, how far paths are compressed or what the ranks are (all unobservable) makes the
+    # proof script stale without being refuted.  Scope: every history of unite / find of length <= 3 on 3
+    # elements, of unite of length <= 3 on 4 elements, and longer ones that build trees of rank 2 and 3.
+    refute_prelude=[
+        'open SR.DS in',
+        'def allOps (n : Nat) : List Op :=',
+        '  ((List.range n).flatMap fun a => (List.range n).map fun b => Op.unite a b) ++ (List.range n).map Op.find',
+        'open SR.DS in',
+        'def uniteOps (n : Nat) : List Op := (List.range n).flatMap fun a => (List.range n).map fun b => Op.unite a b',
+        'def histsOf (ops : List DS.Op) : Nat → List (List DS.Op)',
+        '  | 0 => [[]]',
+        '  | k + 1 => (histsOf ops k).flatMap fun h => ops.map fun o => o :: h',
+        'def canonLabels (reps : List Nat) : List Nat := reps.map fun r => reps.idxOf r',
+        'def groupsCanon (n : Nat) (gs : List (List Nat)) : List Nat × Nat × Nat × Bool :=',
+        '  ((List.range n).map fun i => match gs.find? (fun g => g.contains i) with',
+        '    | some g => g.foldl min i',
+        '    | none => n,',
+        '   gs.length, (gs.map List.length).sum, gs.all fun g => g.zip (g.drop 1) |>.all fun (a, b) => decide (a < b))',
+        'def insL (x : List Nat) : List (List Nat) → List (List Nat)',
+        '  | [] => [x]',
+        '  | y :: ys => if x < y then x :: y :: ys else y :: insL x ys',
+        'def isort (l : List (List Nat)) : List (List Nat) := l.foldr insL []',
+        'def genRunObs (n : Nat) (h : List DS.Op) : Except Py.Err (DisjointSet × List Bool) := do',
+        '  let s ← DisjointSet.__init__ n',
+        '  h.foldlM (fun (p : DisjointSet × List Bool) op => match op with',
+        '    | .unite a b => do let (s, r) ← DisjointSet.unite p.1 a b; pure (s, p.2 ++ [r])',
+        '    | .find a => do let (s, _) ← DisjointSet.find p.1 a; pure (s, p.2)) (s, [])',
+        'def genLabels (n : Nat) (s : DisjointSet) : Except Py.Err (List Nat) := do',
+        '  let (_, reps) ← (List.range n).foldlM (fun (p : DisjointSet × List Nat) i => do',
+        '    let (s, r) ← DisjointSet.find p.1 i; pure (s, p.2 ++ [r])) (s, [])',
+        '  pure (canonLabels reps)',
+        'def modelLabels (n : Nat) (d : DS) : List Nat := canonLabels ((List.range n).map fun i => (d.find i).2)',
+        'def modelRunObs (n : Nat) (h : List DS.Op) : DS × List Bool :=',
+        '  h.foldl (fun (p : DS × List Bool) op => match op with',
+        '    | .unite a b => ((p.1.unite a b).1, p.2 ++ [(p.1.unite a b).2])',
+        '    | .find a => ((p.1.find a).1, p.2)) (DS.init n, [])',
+        'structure Obs where',
+        '  flags : List Bool',
+        '  len : Int',
+        '  labels : List Nat',
+        '  groups : List Nat × Nat × Nat × Bool',
+        '  labelsAfter : List Nat',
+        '  lenAfter : Int',
+        '  deriving DecidableEq, Repr',
+        'abbrev BinObs := List (List Nat) × List Nat',
+        'def genObs (n : Nat) (h : List DS.Op) : Except Py.Err Obs := do',
+        '  let (s, bs) ← genRunObs n h',
+        '  let k ← DisjointSet.__len__ s',
+        '  let labels ← genLabels n s',
+        '  let (s2, gs) ← DisjointSet.to_list s',
+        '  let labels2 ← genLabels n s2',
+        '  let k2 ← DisjointSet.__len__ s2',
+        '  pure ⟨bs, k, labels, groupsCanon n gs, labels2, k2⟩',
+        'def modelObs (n : Nat) (h : List DS.Op) : Except Py.Err Obs :=',
+        '  let p := modelRunObs n h',
+        '  .ok ⟨p.2, (p.1.groups : Int), modelLabels n p.1, groupsCanon n p.1.toList.2, modelLabels n p.1.toList.1,',
+        '       (p.1.toList.1.groups : Int)⟩',
+        'def genBin (n : Nat) (h : List DS.Op) : Except Py.Err BinObs := do',
+        '  let (s, _) ← genRunObs n h',
+        "  let (s', res) ← DisjointSet.binary (fun l => l) s",
+        '  let ls ← res.mapM (genLabels n)',
+        "  let l' ← genLabels n s'",
+        "  pure (isort ls, l')",
+        'def modelBin (n : Nat) (h : List DS.Op) : Except Py.Err BinObs :=',
+        '  let p := modelRunObs n h',
+        '  .ok (isort (p.1.binary.map (modelLabels n)), modelLabels n p.1)',
+        'open SR.DS in',
+        'def dsuCases : List (Nat × List Op) :=',
+        '  ((List.range 4).flatMap fun k => (histsOf (allOps 3) k).map fun h => (3, h)) ++',
+        '  ((List.range 4).flatMap fun k => (histsOf (uniteOps 4) k).map fun h => (4, h)) ++',
+        '  [(0, []), (1, [.unite 0 0]), (5, [.unite 0 1, .unite 2 3, .unite 0 2, .find 3, .unite 4 3, .find 1]),',
+        '   (6, [.unite 0 1, .unite 2 3, .unite 4 5, .unite 1 3, .unite 5 3, .find 5, .find 1]),',
+        '   (8, [.unite 0 1, .unite 2 3, .unite 4 5, .unite 6 7, .unite 1 3, .unite 5 7, .unite 3 7, .find 7, .find 5]),',
+        '   (8, [.unite 1 0, .unite 3 2, .unite 5 4, .unite 7 6, .unite 2 0, .unite 6 4, .unite 4 0, .find 7, .unite 7 1]),',
+        '   (7, [.unite 6 5, .unite 4 3, .unite 5 3, .unite 2 1, .unite 1 0, .unite 3 0, .find 6, .find 4])]',
+        'def binCases : List (Nat × List DS.Op) := dsuCases.filter fun c => c.2.length ≤ 2 || c.1 > 4',
+    ],
+    refute_custom=[
+        ("DisjointSet_history", "dsuCases", "(n, h)", "genObs n h", "modelObs n h"),
+        ("DisjointSet_binary", "binCases", "(n, h)", "genBin n h", "modelBin n h"),
+    ],
+)
+
+SPECS = {"C18": SUBSEQ, "C17": RMQ, "C20": DSU}
 
 
 def write_if_changed(path, text):
